@@ -294,6 +294,204 @@ macro_rules! run_custom1 {
     }};
 }
 
+// ---------------------------------------------------------------------------------------------
+// Part "deg" (X12): the two-series entry points in every degenerate combination - window 0 / 1 / 2,
+// first series of length 0..=3, second series of length 0..=3 (empty / shorter / equal / longer), returned
+// and caller-buffer paths, Vec / VecDeque / ndarray for either series.  A panic is reported as its kind
+// AND the identity of the check that fired (from the panic message), so the ORDER of the checks in the
+// code is compared with Model/Driver.v : check2_default / check2_to / check2_custom.
+
+/// (panic kind, check id): 1 = window assertion, 2 = second-series-shorter assertion, 3 = `window - 1`
+/// underflow, 4 = `write(..).unwrap()` on a length mismatch; 0 = anything else
+fn classify(msg: &str) -> (u8, i128) {
+    if msg.contains("window must be greater than 0") {
+        (2, 1)
+    } else if msg.contains("the second series must not be shorter than the first") {
+        (2, 2)
+    } else if msg.contains("subtract with overflow") {
+        (0, 3)
+    } else if msg.contains("`Err` value") {
+        (3, 4)
+    } else {
+        (panic_kind(msg), 0)
+    }
+}
+
+/// like vh::guarded, but keeps the message
+fn guarded_msg<R>(f: impl FnOnce() -> R + std::panic::UnwindSafe) -> Result<R, String> {
+    use std::sync::Mutex;
+    static LAST: Mutex<String> = Mutex::new(String::new());
+    std::panic::set_hook(Box::new(|info| {
+        let mut s = String::new();
+        if let Some(m) = info.payload().downcast_ref::<&str>() {
+            s.push_str(m)
+        } else if let Some(m) = info.payload().downcast_ref::<String>() {
+            s.push_str(m)
+        }
+        *LAST.lock().unwrap() = s;
+    }));
+    let r = std::panic::catch_unwind(f);
+    let _ = std::panic::take_hook();
+    match r {
+        Ok(v) => Ok(v),
+        Err(_) => Err(LAST.lock().unwrap().clone()),
+    }
+}
+
+/// cells of a degenerate case: the usual cells (or the panic kind), then the id of the check that fired (0: none)
+fn assemble_deg(out: Result<Vec<i64>, String>, trace: &RefCell<Vec<Vec<Cell>>>) -> Vec<Cell> {
+    match out {
+        Err(m) => {
+            let (k, id) = classify(&m);
+            vec![Cell::Panic(k), Cell::Int(id)]
+        }
+        Ok(o) => {
+            let mut c = assemble(Ok(o), trace);
+            c.push(Cell::Int(0));
+            c
+        }
+    }
+}
+
+/// $kind: apply2 / apply2_to / apply2_idx / apply2_idx_to / custom2; $buf: caller buffer (always for *_to)
+macro_rules! run_deg {
+    ($kind:expr, $buf:expr, $w:expr, $len:expr, $view:expr, $view2:expr, $t1:ty, $it1:expr, $t2:ty, $it2:expr) => {{
+        let trace: RefCell<Vec<Vec<Cell>>> = RefCell::new(vec![]);
+        let w: usize = $w;
+        let len: usize = $len;
+        let res = guarded_msg(std::panic::AssertUnwindSafe(|| -> Vec<i64> {
+            let v = $view;
+            let v2 = $view2;
+            let it1 = $it1;
+            let it2 = $it2;
+            match $kind {
+                "apply2" | "apply2_to" => {
+                    let f = |rm: Option<(f64, f64)>, x: (f64, f64)| {
+                        let mut t = trace.borrow_mut();
+                        let k = t.len();
+                        let (r1, r2) = match rm { Some((a, b)) => (Cell::F(a), Cell::F(b)), None => (Cell::Null, Cell::Null) };
+                        t.push(vec![masked_rm(w, len, k, r1), masked_rm(w, len, k, r2), Cell::F(x.0), Cell::F(x.1)]);
+                        k as i64
+                    };
+                    if $kind == "apply2_to" {
+                        let mut u = sent_buf(len);
+                        v.rolling2_apply_to::<Vec<i64>, _, _, _, _>(&v2, w, f, Vec::<i64>::uninit_ref_mut(&mut u));
+                        unsafe { u.assume_init() }
+                    } else if $buf {
+                        let mut u = sent_buf(len);
+                        v.rolling2_apply::<Vec<i64>, _, _, _, _>(&v2, w, f, Some(Vec::<i64>::uninit_ref_mut(&mut u)));
+                        unsafe { u.assume_init() }
+                    } else {
+                        v.rolling2_apply::<Vec<i64>, _, _, _, _>(&v2, w, f, None).unwrap()
+                    }
+                }
+                "apply2_idx" | "apply2_idx_to" => {
+                    let f = |st: Option<usize>, e: usize, x: (f64, f64)| {
+                        let mut t = trace.borrow_mut();
+                        let k = t.len();
+                        t.push(vec![masked_rm(w, len, k, optu(st)), Cell::Int(e as i128), Cell::F(x.0), Cell::F(x.1)]);
+                        k as i64
+                    };
+                    if $kind == "apply2_idx_to" {
+                        let mut u = sent_buf(len);
+                        v.rolling2_apply_idx_to::<Vec<i64>, _, _, _, _>(&v2, w, f, Vec::<i64>::uninit_ref_mut(&mut u));
+                        unsafe { u.assume_init() }
+                    } else if $buf {
+                        let mut u = sent_buf(len);
+                        v.rolling2_apply_idx::<Vec<i64>, _, _, _, _>(&v2, w, f, Some(Vec::<i64>::uninit_ref_mut(&mut u)));
+                        unsafe { u.assume_init() }
+                    } else {
+                        v.rolling2_apply_idx::<Vec<i64>, _, _, _, _>(&v2, w, f, None).unwrap()
+                    }
+                }
+                "custom2" => {
+                    let f = |sl: $t1, sl2: $t2| {
+                        let mut t = trace.borrow_mut();
+                        let k = t.len();
+                        let mut c: Vec<Cell> = it1(sl);
+                        c.push(Cell::Sep);
+                        c.extend(it2(sl2));
+                        c.push(Cell::Sep);
+                        t.push(c);
+                        k as i64
+                    };
+                    if $buf {
+                        let mut u = sent_buf(len);
+                        v.rolling2_custom::<Vec<i64>, _, _, _, _>(&v2, w, f, Some(Vec::<i64>::uninit_ref_mut(&mut u)));
+                        unsafe { u.assume_init() }
+                    } else {
+                        v.rolling2_custom::<Vec<i64>, _, _, _, _>(&v2, w, f, None).unwrap()
+                    }
+                }
+                _ => unreachable!(),
+            }
+        }));
+        assemble_deg(res, &trace)
+    }};
+}
+
+/// second series on each backend
+macro_rules! deg_second {
+    ($be2:expr, $kind:expr, $buf:expr, $w:expr, $len:expr, $ys:expr, $view:expr, $t1:ty, $it1:expr) => {{
+        match $be2 {
+            "vec" => run_deg!($kind, $buf, $w, $len, $view, $ys.clone(), $t1, $it1, &[f64], |s: &[f64]| cells_f64(s)),
+            "deque" => run_deg!($kind, $buf, $w, $len, $view, rot_deque(&$ys, 1), $t1, $it1,
+                std::collections::vec_deque::Iter<'_, f64>,
+                |s: std::collections::vec_deque::Iter<'_, f64>| cells_f64(&s.cloned().collect::<Vec<_>>())),
+            _ => run_deg!($kind, $buf, $w, $len, $view, Array1::from_vec($ys.clone()), $t1, $it1,
+                ArrayView1<'_, f64>, |s: ArrayView1<f64>| cells_f64(&s.to_vec())),
+        }
+    }};
+}
+
+fn degenerate(em: &mut Emitter) {
+    for len in 0..=3usize {
+        for len2 in 0..=3usize {
+            let xs = series(len, 11);
+            let ys = series(len2, 12);
+            let xs_coq = coq_list(&xs, |x| coq_f64(*x));
+            let ys_coq = coq_list(&ys, |x| coq_f64(*x));
+            for w in 0..=2usize {
+                for (kind, buf) in [("apply2", false), ("apply2", true), ("apply2_to", true),
+                                    ("apply2_idx", false), ("apply2_idx", true), ("apply2_idx_to", true),
+                                    ("custom2", false), ("custom2", true)] {
+                    for be in ["vec", "deque", "nd"] {
+                        // which body runs: Vec / ndarray override the returned path with the index body over a
+                        // fresh buffer; VecDeque has the default trait method (iterator body when returned)
+                        let body = buf || be != "deque";
+                        let (runner, chk) = match kind {
+                            "apply2" | "apply2_to" => (format!("run_apply2 ef ef {}", coq_bool(body)),
+                                if body { "check2_to" } else { "check2_default" }),
+                            "apply2_idx" | "apply2_idx_to" => (format!("run_apply2_idx ef ef {}", coq_bool(body)),
+                                if body { "check2_to" } else { "check2_default" }),
+                            _ => ("run_custom2 ef ef".to_string(), "check2_custom"),
+                        };
+                        let term = format!("(({} {} {} {}) ++ c_nat (Model.Driver.guard_id (@Model.Driver.{} PrimFloat.float PrimFloat.float {} {} {})))",
+                            runner, coq_nat(w), xs_coq, ys_coq, chk, coq_nat(w), xs_coq, ys_coq);
+                        for be2 in ["vec", "deque", "nd"] {
+                            let rel2 = if len2 == 0 && len > 0 { "empty" } else if len2 < len { "shorter" }
+                                else if len2 == len { "eq" } else { "longer" };
+                            let tags = format!("part=deg kind={} be={} be2={} buf={} w={} first={} second={}{}", kind, be, be2, buf,
+                                if w == 0 { "0" } else { "pos" }, if len == 0 { "empty" } else { "nonempty" }, rel2,
+                                if len == 0 || len2 == 0 || w == 0 { " nt=0" } else { "" });
+                            let desc = format!("deg kind={} be={} be2={} buf={} w={} len={} len2={} xs={:?} ys={:?}", kind, be, be2, buf, w, len, len2, xs, ys);
+                            let t = term.clone();
+                            em.case("exact", &tags, &desc, || t, || match be {
+                                "vec" => deg_second!(be2, kind, buf, w, len, ys, xs.clone(), &[f64], |s: &[f64]| cells_f64(s)),
+                                "deque" => deg_second!(be2, kind, buf, w, len, ys, rot_deque(&xs, 1),
+                                    std::collections::vec_deque::Iter<'_, f64>,
+                                    |s: std::collections::vec_deque::Iter<'_, f64>| cells_f64(&s.cloned().collect::<Vec<_>>())),
+                                _ => deg_second!(be2, kind, buf, w, len, ys, Array1::from_vec(xs.clone()),
+                                    ArrayView1<'_, f64>, |s: ArrayView1<f64>| cells_f64(&s.to_vec())),
+                            });
+                        }
+                    }
+                }
+            }
+        }
+    }
+}
+
 fn rot_deque(xs: &[f64], rot: usize) -> VecDeque<f64> {
     // build a deque whose ring buffer head is at offset `rot` (wrapped when rot > 0 and len > 1)
     let mut d: VecDeque<f64> = VecDeque::with_capacity(xs.len().max(1));
@@ -445,5 +643,6 @@ fn main() {
             }
         }
     }
+    degenerate(&mut em);
     em.finish();
 }
